@@ -153,6 +153,32 @@ def common_judge(case, o, mo, pid):
     return probs, ctx
 
 
+F18_MARK = "[fitted-threshold-equals-training-score]"
+
+
+def mark_f18(case, o, probs):
+    """append F18_MARK to the relation of every problem of a case in which the implementation's fitted rule of some group
+    uses, with weight > WTOL, a finite threshold equal to one of that group's training scores"""
+    if not probs or "rules" not in o:
+        return probs
+    gs, rows = tc.groups_of(case)
+    hit = False
+    for g in gs:
+        r = o["rules"].get(str(g))
+        if not r:
+            continue
+        scores = {s for s, _ in rows[g]}
+        for w, op in ((r["p0"], r["op0"]), (r["p1"], r["op1"])):
+            t = tc._thr_val(op[1])
+            if isinstance(t, F) and math.isfinite(w) and abs(w) > tc.WTOL and t in scores:
+                hit = True
+    if hit:
+        for p in probs:
+            if p.kind in ("property", "correspondence"):
+                p.relation = (p.relation or "") + F18_MARK
+    return probs
+
+
 def query_oracle(case, o):
     """PREDICT path, implementation alone: `_pmf_predict` on rows the fit has not seen must be the fitted rule of the
     row's own group applied to the row's own score (0 for an unseen sensitive-feature value), rows must sum to 1, and
@@ -260,8 +286,11 @@ class ThresholdCheck(Check):
         return tc.shrink_case(case)
 
     def known(self, case, problem, entries):
-        # F17: a score pair whose float midpoint is not strictly between the two scores (adjacent doubles)
-        if problem.kind in ("property", "correspondence") and tc.midpoint_rounds_onto_score(case):
+        # F18: a score pair whose float midpoint is not strictly between the two scores (adjacent doubles) AND the fitted
+        # rule really uses, with non-zero weight, a threshold equal to a training score of its own group (marker set by
+        # the judge from the implementation's interpolation_dict); any other violation on such data is still reported
+        if problem.kind in ("property", "correspondence") and F18_MARK in (problem.relation or "") \
+                and tc.midpoint_rounds_onto_score(case):
             for e in entries:
                 if e.get("predicate") == "midpoint_rounds_onto_score":
                     return e
@@ -342,7 +371,7 @@ class CHECK(ThresholdCheck):
                "ties within 1e-8 accepted)",
                "the pass-through estimator (predict returns the score column) stands for an arbitrary prefit scorer",
                "IEEE rounding of the threshold midpoint is not modelled: the generator keeps every midpoint of two near-tie "
-               "scores exactly representable (t >= 1); the remaining case (adjacent doubles) is known finding F17",
+               "scores exactly representable (t >= 1); the remaining case (adjacent doubles) is known finding F18",
                "comparisons with +-inf thresholds, numpy boolean masks and RandomState.rand are modelled by their specification")
     assumptions = ("every group contains both labels", "scores are finite", "grid_size >= 1")
 
@@ -354,7 +383,7 @@ class CHECK(ThresholdCheck):
     def judge(self, case, o, mo):
         probs, ctx = common_judge(case, o, mo, "C04")
         stash_tags(o, ctx)
-        return tc.cap_when_tie_broken(probs)
+        return tc.cap_when_tie_broken(mark_f18(case, o, probs))
 
     def signature(self, case, o):
         return super().signature(case, o)
